@@ -205,16 +205,16 @@ ASSUMPTIONS = ["the real interpreter finalisation sequence and cyclic-GC timing 
 BOUNDS_TEXT = {"quick": "4 executor kinds with worker threads; exit by shutdown/drop/exit-hook at a scheduler-chosen point (P<=2); reference histories of 2 futures x 4 fates (P=0); pending-outlives (P<=1)",
                "thorough": "P<=3; histories of 3"}
 MUST_REACH = {"*": ["exit-checked-shutdown", "exit-checked-drop", "exit-checked-exit-hook", "refs-checked", "outlive-checked"]}
-BUDGET = {"quick": 150.0, "thorough": 1200.0}
+BUDGET = {"quick": 150.0, "thorough": 600.0}
 
 
 def plan(tier, seed):
     q = tier == "quick"
     items = []
     for k in ("retry", "poll", "throttle", "timeout"):
-        items.append(dict(scenario="threads", params=dict(kind=k), bounds=dict(P=2 if q else 3)))
+        items.append(dict(scenario="threads", params=dict(kind=k), bounds=dict(P=3 if q else 4)))
         if k == "retry":
             items.append(dict(scenario="threads", params=dict(kind=k, backoff=True), bounds=dict(P=1 if q else 2)))
         items.append(dict(scenario="refs", params=dict(kind=k, n=2 if q else 3), bounds=dict(P=0)))
-        items.append(dict(scenario="pending_outlives", params=dict(kind=k), bounds=dict(P=1 if q else 2)))
+        items.append(dict(scenario="pending_outlives", params=dict(kind=k), bounds=dict(P=2 if q else 3)))
     return items
